@@ -1317,3 +1317,20 @@ impl SrtpSession {
         }
     }
 }
+
+/// Verification-only (`--cfg rustrtc_verif`), round 3: age of every context (time since `last_used`),
+/// so a lost or spurious time stamp is visible to the harness without waiting for an eviction.
+#[cfg(rustrtc_verif)]
+impl SrtpSession {
+    /// `(ssrc, milliseconds since last use)` of the receive (`tx = false`) or transmit contexts, sorted.
+    pub fn verif_ctx_ages_ms(&self, tx: bool) -> Vec<(u32, u64)> {
+        let map = if tx { &self.tx_contexts } else { &self.rx_contexts };
+        let now = std::time::Instant::now();
+        let mut out: Vec<_> = map
+            .values()
+            .map(|c| (c.ssrc, now.duration_since(c.last_used).as_millis() as u64))
+            .collect();
+        out.sort();
+        out
+    }
+}
